@@ -2,15 +2,16 @@
 // Real cocls::mutex, K contenders on their own threads, every flavour of request and release.
 #include "common_vrt.h"
 #include <cocls/mutex.h>
+#include <cocls/thread_pool.h>
 #include <atomic>
 #include <memory>
 
 namespace {
 
 enum Flavour { CO = 0, BL = 1, TRY = 2 };
-enum Release { DIS = 0, DTOR = 1, AWT = 2, MOVE = 3 };
+enum Release { DIS = 0, DTOR = 1, AWT = 2, MOVE = 3, POOL = 4 };
 static const char *fl_names[] = {"co", "bl", "try"};
-static const char *rl_names[] = {"dis", "dtor", "awt", "move"};
+static const char *rl_names[] = {"dis", "dtor", "awt", "move", "pool"};
 
 constexpr int MAXK = 4;
 // scratch layout
@@ -20,6 +21,8 @@ struct Shared {
     cocls::mutex mx;
     std::atomic<int> dummy{0};  // relaxed load = scheduling point without happens-before
     int probe = 0;              // plain: broken exclusion is also a data race
+    std::atomic<int> finished{0};  // contenders that are completely done (gives main a happens-before edge before teardown)
+    std::unique_ptr<cocls::thread_pool> pool;  // release style 'pool': the next owner is resumed on a pool worker
 };
 
 static void critical(Shared &sh, int id) {
@@ -65,10 +68,16 @@ static cocls::async<void> co_contender(Shared &sh, int id, int rel, int rounds) 
                 body_enter(id);
                 break;
             case MOVE: release_on_thread(std::move(own)); break;
+            case POOL: {
+                cocls::suspend_point<void> sp = own.release();
+                sh.pool->resume(sp);
+                break;
+            }
         }
     }
     vrt_scratch()[S_DONE]++;
     body_leave(id);
+    sh.finished.fetch_add(1);
 }
 
 static void contender_thread(Shared &sh, int id, int fl, int rel, int rounds) {
@@ -88,9 +97,14 @@ static void contender_thread(Shared &sh, int id, int fl, int rel, int rounds) {
                 release_on_thread(std::move(own));
             else if (rel == DIS)
                 own.release();
+            else if (rel == POOL) {
+                cocls::suspend_point<void> sp = own.release();
+                sh.pool->resume(sp);
+            }
             // DTOR: destructor releases
         }
         s[S_DONE]++;
+        sh.finished.fetch_add(1);
     } else {
         for (int r = 0; r < rounds; r++) {
             s[S_REQ + id] = next_seq();
@@ -105,18 +119,22 @@ static void contender_thread(Shared &sh, int id, int fl, int rel, int rounds) {
                 s[S_TRYFAIL]++;
         }
         s[S_DONE]++;
+        sh.finished.fetch_add(1);
     }
 }
 
 static void run_mx(int K, const int *fl, const int *rel, int rounds) {
     auto sh = std::make_unique<Shared>();
+    bool uses_pool = false;
+    for (int i = 0; i < K; i++) uses_pool |= rel[i] == POOL;
+    if (uses_pool) sh->pool.reset(new cocls::thread_pool(1));
     vstd::thread th[MAXK];
     for (int i = 0; i < K; i++) th[i] = vstd::thread(contender_thread, std::ref(*sh), i, fl[i], rel[i], rounds);
     for (int i = 0; i < K; i++) th[i].join();
     int64_t *s = vrt_scratch();
     // helper "releaser" threads are detached: wait until every contender is done (each release resumes the next)
     vrt_label("main-wait-done");
-    while (s[S_DONE] < K) vrt_yield();
+    while (s[S_DONE] < K || sh->finished.load() < K) vrt_yield();
     vrt_label("main");
     int requests = 0;
     for (int i = 0; i < K; i++) requests += rounds;
@@ -142,6 +160,7 @@ static void run_mx(int K, const int *fl, const int *rel, int rounds) {
         vrt_yield();  // a detached releaser may still be inside release(); if nobody is, this deadlocks => lost unlock
     }
     vrt_label("main");
+    sh->pool.reset();
     vrt_outcome("grants=%ld tryfail=%ld first=%d", (long)s[S_GRANTS], (long)s[S_TRYFAIL],
                 (int)(s[S_GRANT + 0] < s[S_GRANT + 1] ? 0 : 1));
 }
@@ -162,6 +181,20 @@ VRT_REGISTER(reg_mx) {
                         });
                     }
                 }
+    // release through a thread pool: the next owner continues on a pool worker
+    for (int f1 = 0; f1 < 2; f1++)
+        for (int r1 = 0; r1 < 5; r1++) {
+            if (r1 == AWT && f1 != CO) continue;
+            std::string name = std::string("mxpool_co-") + fl_names[f1] + "_pool-" + rl_names[r1];
+            vrt::add(name, [=] {
+                int fl[2] = {CO, f1}, rel[2] = {POOL, r1};
+                run_mx(2, fl, rel, 1);
+            });
+        }
+    vrt::add("mxpool_co-co-co", [] {
+        int fl[3] = {CO, CO, CO}, rel[3] = {POOL, DIS, POOL};
+        run_mx(3, fl, rel, 1);
+    });
     // three and four contenders, one round
     for (int K = 3; K <= 4; K++)
         for (int mixf = 0; mixf < 4; mixf++)
